@@ -554,6 +554,7 @@ def oracle_c15(rec, driver=None):
     if rec['error'] is None and rec.get('hp1'):
         seq.append(rec['hp1'])
     prev = None
+    adapted_w = False
     for t, hp in enumerate(seq):
         stats['hooks'] += 1
         for k, v in hp.items():
@@ -569,7 +570,14 @@ def oracle_c15(rec, driver=None):
                 issues.append(dict(what='rounding-excursion', name=name, value=x, lo=lo, hi=hi, at=t))
         if kind == 'AIWPSO':
             stats['adaptive_values'] += 1
-            rng_ok('w', hp['w_min'], hp['w_max'], hp['w'])
+            # the user's initial w is only replaced by the first adaptation step (it is seen unchanged
+            # by the first hooks); from the first adapted value on, w must lie inside [w_min, w_max]
+            w0 = hp0.get('w')
+            init_inside = w0 is not None and hp['w_min'] <= w0 <= hp['w_max']
+            adapted = adapted_w or (w0 is not None and hp['w'] != w0)
+            adapted_w = adapted
+            if init_inside or adapted:
+                rng_ok('w', hp['w_min'], hp['w_max'], hp['w'])
         if kind == 'IHS' and t >= 1:
             stats['adaptive_values'] += 2
             rng_ok('PAR', hp['PAR_min'], hp['PAR_max'], hp['PAR'])
